@@ -1790,14 +1790,14 @@ Qed.
 
 Lemma graph_ok_sites ds es ss cs : graph_problems ds es ss cs = [] ->
   forall s, In s ss ->
-    exists g x, cm_get (s_fun s) (classes_of es) = [g] /\ resolve_field ds (s_type s) (s_field s) = Some x /\
+    exists g x, cm_get (s_fun s) (classes_of es) = [g] /\ resolve_field ds ss (classes_of es) (s_type s) (s_field s) = Some x /\
                 performs g x (s_write s) = true.
 Proof.
   unfold graph_problems. intros H s Hin.
   apply app_eq_nil in H. destruct H as [_ H]. apply app_eq_nil in H. destruct H as [H _].
   pose proof (flat_map_nil _ _ s H Hin) as Hs. unfold check_site in Hs.
   destruct (cm_get (s_fun s) (classes_of es)) as [|g [|g' r]]; try discriminate.
-  destruct (resolve_field ds (s_type s) (s_field s)) as [x|]; try discriminate.
+  destruct (resolve_field ds ss (classes_of es) (s_type s) (s_field s)) as [x|]; try discriminate.
   destruct (performs g x (s_write s)) eqn:Ep; try discriminate.
   exists g, x. auto.
 Qed.
@@ -1805,7 +1805,7 @@ Qed.
 Lemma graph_ok_sites_race_free ds es ss cs : graph_problems ds es ss cs = [] ->
   forall s, In s ss ->
     exists g x sched w',
-      cm_get (s_fun s) (classes_of es) = [g] /\ resolve_field ds (s_type s) (s_field s) = Some x /\
+      cm_get (s_fun s) (classes_of es) = [g] /\ resolve_field ds ss (classes_of es) (s_type s) (s_field s) = Some x /\
       In (g, x, w') (acc_classes (trace (step repaired) init sched)) /\ (s_write s = true -> w' = true) /\
       races (trace (step repaired) init sched) = [].
 Proof.
